@@ -630,7 +630,7 @@ func ConcTrace(p *Plan, r *ConcResult) []string {
 // MinimiseConc shrinks a failing concurrent plan: drop whole tasks, then
 // single commands, then set-up commands, then pre-emptions, while the same
 // rule still fails under the same (seeded, hence exactly repeatable) scheduler.
-func MinimiseConc(p *Plan, rule string, budget int) (*Plan, int) {
+func MinimiseConc(p *Plan, rule string, budget int, keep func(*Plan, *RunResult) bool) (*Plan, int) {
 	cur := clonePlan(p)
 	runs := 0
 	try := func(c *Plan) bool {
@@ -641,7 +641,7 @@ func MinimiseConc(p *Plan, rule string, budget int) (*Plan, int) {
 		r := ExecConc(c)
 		for _, f := range r.Fails {
 			if f.Rule == rule {
-				return true
+				return keep == nil || keep(c, &r.RunResult)
 			}
 		}
 		return false
